@@ -249,10 +249,13 @@ func runBacklogScript(r *res.R, prog *c18prog, scratch string) {
 				off = uint64(int64(wpos) + op.Off)
 			case "rpos":
 				off = uint64(int64(rposOf()) + op.Off)
+			case "huge": // offsets far beyond anything ever written: around 2^32, 2^63 and the top of the 64-bit range
+				capU := uint64(prog.Cap)
+				off = []uint64{^uint64(0), ^uint64(0) - capU + 1 + wpos, ^uint64(0) - capU/2, ^uint64(0) - capU + wpos, 1 << 63, 1<<63 + wpos, 1 << 32, 1<<32 + wpos, wpos + capU, wpos + capU + 1}[int(op.Off)%10]
 			default:
 				off = uint64(op.Off)
 			}
-			if int64(off) < 0 {
+			if int64(off) < 0 && op.Rel != "huge" {
 				off = 0
 			}
 			if off == wpos && op.N > 0 && !closed {
@@ -441,7 +444,9 @@ func genBacklogScript(rng *prng.R, backend string, capacity int) *c18prog {
 			}
 		case k < 14:
 			op = blOp{Name: "ReadAt", N: rng.Pick(0, 1, 16, capacity/2, capacity, capacity+5)}
-			switch rng.Intn(7) {
+			switch rng.Intn(8) {
+			case 7:
+				op.Rel, op.Off = "huge", int64(rng.Intn(10))
 			case 0:
 				op.Rel, op.Off = "wpos", int64(rng.Pick(1, 2, 100, capacity))
 			case 1:
